@@ -313,7 +313,7 @@ HandleReadCritical(cs, fsys, req) ==
 RECURSIVE CDRuns(_, _, _, _, _)
 CDRuns(cid, size, sect, sector, left) ==
   IF left = 0 THEN << >>
-  ELSE LET off == PAdd(P(CDUserOffset), PMulInt(P(sect), sector))
+  ELSE LET off == PAdd(P(CDUserOffset), PMulSmall(sect, sector))     \* sector < 2^29 (beyond that: hugeArgs)
            n == Avail(size, off, P(CDUserBytes))
        IN IF n < CDUserBytes THEN <<Run(cid, off, n)>>     \* short: the stream stops here
           ELSE <<Run(cid, off, n)>> \o CDRuns(cid, size, sect, sector + 1, left - 1)
@@ -468,6 +468,9 @@ Handle1(cs, fsys, req, aw, views) ==
     [] req.op = "MKDIR"              -> HandleMkdir(cs, fsys, req, aw)
     [] req.op = "GET_DIR_SIZE"       -> HandleDirSize(cs, fsys, req)
     [] req.op = "TRUNCATED"          -> HandleTruncated(cs, fsys, req, aw)
+    \* the client reset the connection in the middle of the reply to a read: what it received is not judged, the
+    \* connection's own state is what it was (reads do not change it); normally the server notices and hangs up
+    [] req.op = "ABORTED"            -> { Outcome(cs, fsys, [k |-> "Unjudged"], c) : c \in BOOLEAN }
     [] OTHER                         -> { Outcome(cs, fsys, RNone, TRUE) }   \* BAD_OPCODE
 
 (* C01: a path that lexically rises above the root is clamped, or answered   *)
@@ -507,7 +510,11 @@ FaultOutcomes(cs, fsys, req, aw, views) ==
             \cup { Outcome(o.cs, fsys, OpenFail, FALSE) : o \in ok }
             \* success reply, but the sector-size probe failed: the default applies
             \cup { Outcome([o.cs EXCEPT !.sect = DefaultCDSector], fsys, o.resp, FALSE) : o \in { o \in ok : o.cs.ro.open } }
-       [] req.op = "READ_FILE" -> closedAny
+       [] req.op = "READ_FILE" ->
+            \* nothing and the connection ends - or, the source having ended early, an honestly announced shorter count
+            \* followed by exactly that many right bytes (the length header keeps the stream in step)
+            closedAny \cup UNION { { Outcome(cs, fsys, [k |-> "ReadPrefix", runs |-> o.resp.runs], c) : c \in BOOLEAN }
+                                   : o \in { o \in ok : o.resp.k = "Read" } }
        [] req.op \in {"READ_FILE_CRITICAL", "READ_CD_2048"} ->
             { Outcome(cs, fsys, [k |-> "RawPrefix", runs |-> o.resp.runs], TRUE) : o \in { o \in ok : o.resp.k \in {"Raw", "RawPrefix"} } }
             \cup closedAny
